@@ -163,10 +163,28 @@ func hasReservedShape(v core.Val) bool {
 }
 
 func jsonDecodeTerm(opts dagjson.DecodeOptions, b []byte) string {
+	first := jsonDecodeTermVia(opts, b, 0)
+	h := 0
+	for _, x := range b {
+		h = h*31 + int(x)
+	}
+	if h < 0 {
+		h = -h
+	}
+	v := 1 + h%3
+	if other := jsonDecodeTermVia(opts, b, v); other != first {
+		_, name := c03Reader(nil, v)
+		return first + "   BUT through a " + name + " reader: " + other
+	}
+	return first
+}
+
+func jsonDecodeTermVia(opts dagjson.DecodeOptions, b []byte, variant int) string {
 	var out string
 	err, panicked, pv := core.Catch(func() error {
 		nb := basicnode.Prototype.Any.NewBuilder()
-		if err := opts.Decode(nb, bytes.NewReader(b)); err != nil {
+		rd, _ := c03Reader(b, variant)
+		if err := opts.Decode(nb, rd); err != nil {
 			if errors.Is(err, dagjson.ErrDecodeDepthExceeded) {
 				out = "err depth"
 			} else {
